@@ -31,6 +31,74 @@ const watchdog = 4 * time.Second
 
 type evT struct{ K, N int } // K: 0 resolves, 1 root resolver fails, 2 nullable leaf fails, 3 non-null leaf yields null
 
+// Payload kinds 4..10 are values a sloppy "has the source closed?" test could mistake for closure (the zero value a
+// receive from a closed channel yields is nil): they must be forwarded like any other event. The root resolver
+// reports which value it was given as the source, so the expected result is independent per kind.
+const (
+	kNil = 4 + iota
+	kEmptyMap
+	kTypedNil
+	kFalse
+	kZeroInt
+	kEmptyString
+	kEmptySlice
+	kindCount
+)
+
+func mkEvent(k, n int) interface{} {
+	switch k {
+	case kNil:
+		return nil
+	case kEmptyMap:
+		return map[string]interface{}{}
+	case kTypedNil:
+		return (*evT)(nil)
+	case kFalse:
+		return false
+	case kZeroInt:
+		return 0
+	case kEmptyString:
+		return ""
+	case kEmptySlice:
+		return []interface{}{}
+	}
+	return evT{K: k, N: n}
+}
+
+// classify: what the root resolver sees for a payload that is not an evT. A nil root value reaches resolvers as an
+// empty map (executePlannedSelection substitutes it), so kinds nil and empty map both yield 41.
+func classify(src interface{}) (int, bool) {
+	switch v := src.(type) {
+	case nil:
+		return 40, true
+	case map[string]interface{}:
+		if len(v) == 0 {
+			return 41, true
+		}
+	case *evT:
+		if v == nil {
+			return 42, true
+		}
+	case bool:
+		if !v {
+			return 43, true
+		}
+	case int:
+		if v == 0 {
+			return 44, true
+		}
+	case string:
+		if v == "" {
+			return 45, true
+		}
+	case []interface{}:
+		if len(v) == 0 {
+			return 46, true
+		}
+	}
+	return 0, false
+}
+
 type subMode struct {
 	kind string           // what the Subscribe resolver does
 	src  chan interface{} // the source channel for kind "stream"
@@ -77,6 +145,9 @@ func buildSchema() graphql.Schema {
 				},
 				Resolve: func(p graphql.ResolveParams) (interface{}, error) {
 					e, ok := p.Source.(evT)
+					if code, special := classify(p.Source); !ok && special {
+						return evT{K: 0, N: code}, nil
+					}
 					if !ok {
 						return nil, fmt.Errorf("unexpected root value %T", p.Source)
 					}
@@ -405,7 +476,7 @@ func (r *runner) startOffer() {
 	go func() {
 		defer close(o.done)
 		select {
-		case src <- evT{K: e[0], N: e[1]}:
+		case src <- mkEvent(e[0], e[1]):
 			close(o.taken)
 		case <-o.abort:
 		}
@@ -548,7 +619,7 @@ func (r *runner) intent(in byte) {
 		if !r.cancelled {
 			t := time.NewTimer(watchdog)
 			select {
-			case r.src <- evT{K: e[0], N: e[1]}:
+			case r.src <- mkEvent(e[0], e[1]):
 				t.Stop()
 				r.afterTake()
 			case <-t.C:
@@ -801,7 +872,7 @@ func main() {
 	}
 	defer drv.Close()
 	schema := buildSchema()
-	run.Res.Rule = "schedules = sequences of harness intents (P produce next event, O offer next event in the background, D consumer receives, R receive racing with cancel, C cancel, X close source, W wait for the forwarder to leave, S consumer stops, Z consumer pauses) enumerated depth-first under the model's enabledness, then a finale (complete: deliver/produce everything, close the source; or cancel: cancel and give no consumer help); requests: stream with 0..4 events of 4 payload kinds (ok, root resolver fails, nullable leaf fails, non-null leaf null), 9 one-shot failures inside the goroutine, non-channel value, parse and validation errors; entries graphql.Subscribe and ExecuteSubscription; the real run is recorded as model actions and validated by the compiled Lean model; non-trivial = the recorded run has >= 3 model actions (>= 1 for one-shot requests); distinct by (request, entry, events, intents, consumer, finale)"
+	run.Res.Rule = "schedules = sequences of harness intents (P produce next event, O offer next event in the background, D consumer receives, R receive racing with cancel, C cancel, X close source, W wait for the forwarder to leave, S consumer stops, Z consumer pauses) enumerated depth-first under the model's enabledness, then a finale (complete: deliver/produce everything, close the source; or cancel: cancel and give no consumer help); requests: stream with 0..4 events of 11 payload kinds (ok, root resolver fails, nullable leaf fails, non-null leaf null, and the closure look-alikes nil, empty map, typed nil pointer, false, 0, \"\", empty slice — each also swept over every position of sequences of 1..4 events), 9 one-shot failures inside the goroutine, non-channel value, parse and validation errors; entries graphql.Subscribe and ExecuteSubscription; the real run is recorded as model actions and validated by the compiled Lean model; non-trivial = the recorded run has >= 3 model actions (>= 1 for one-shot requests); distinct by (request, entry, events, intents, consumer, finale)"
 
 	one := func(c caseT) {
 		spec, okSpec := reqSpecs[c.Req]
@@ -869,6 +940,13 @@ func main() {
 		run.Tag("consumer:" + c.Consumer)
 		run.Tag("finale:" + c.Finale)
 		run.Tag(fmt.Sprintf("events:%d", len(c.Events)))
+		if spec.model == "stream" {
+			for _, e := range c.Events {
+				if e[0] >= kNil {
+					run.Tag(fmt.Sprintf("payload-kind:%d", e[0]))
+				}
+			}
+		}
 		run.Tag(fmt.Sprintf("delivered:%d", len(r.obs.Delivered)))
 		if r.cancelBeforeStart {
 			run.Tag("cancel-before-subscribe")
@@ -1061,6 +1139,33 @@ func main() {
 		one(c)
 		idx++
 	}
+	// every closure-lookalike payload (and the zero evT) at every position of sequences of 1..4 events, run to
+	// completion with a prompt and with a slow consumer, and cancelled right after the special event was delivered
+	for n := 1; n <= 4 && !run.TooManyViolations(); n++ {
+		for pos := 0; pos < n; pos++ {
+			for kind := 0; kind < kindCount; kind++ {
+				if kind >= 1 && kind <= 3 {
+					continue
+				}
+				for _, v := range []struct{ consumer, intents, finale string }{
+					{"prompt", "", "complete"},
+					{"slow", strings.Repeat("PD", pos+1), "complete"},
+					{"slow", strings.Repeat("PD", pos+1), "cancel"},
+					{"stopped", strings.Repeat("PD", pos) + "PS", "cancel"},
+				} {
+					for _, entry := range []string{"subscribe", "execute"} {
+						ev := make([][2]int, n)
+						for k := range ev {
+							ev[k] = [2]int{0, 10 + k}
+						}
+						ev[pos] = [2]int{kind, 0}
+						one(caseT{Req: "stream", Entry: entry, Events: ev, Intents: v.intents, Consumer: v.consumer, Finale: v.finale})
+						run.Tag("closure-lookalike-payload-sweep")
+					}
+				}
+			}
+		}
+	}
 	off := int(run.Seed) % stride
 	entries := []string{"subscribe", "execute"}
 	passes := [][2]int{{procs, stride}}
@@ -1083,8 +1188,8 @@ func main() {
 				c.Events = make([][2]int, len(all[i].Events))
 				for k := range c.Events {
 					kind := 0
-					if rg.Chance(2, 5) {
-						kind = rg.Range(1, 3)
+					if rg.Chance(1, 2) {
+						kind = rg.Range(1, kindCount-1)
 					}
 					c.Events[k] = [2]int{kind, rg.Range(0, 99)}
 				}
